@@ -578,7 +578,7 @@ func extFormatFloat(fr *frame, args []value) value {
 	case float64:
 		return strconv.FormatFloat(x, f, prec, bits)
 	case sym:
-		return &symstr{e: []value{ffElem{x: x.t, f: f, prec: prec}}}
+		return &symstr{e: []value{ffElem{x: x.t, f: f, prec: prec, bits: bits}}}
 	}
 	panic(fmt.Sprintf("FormatFloat: %T", args[0]))
 }
@@ -586,6 +586,7 @@ func extFormatFloat(fr *frame, args []value) value {
 // ffElem is the float-text pseudo byte: the whole text
 // strconv.FormatFloat(x, f, prec, 64) of a symbolic float.
 type ffElem struct {
+	bits int // 32 or 64: only a 64-bit shortest text reads back as the same value
 	x    *Term
 	f    byte
 	prec int
@@ -614,7 +615,7 @@ func (ps *pathState) parseFloatSym(fr *frame, s *symstr) value {
 	errv := func() value { return fr.i.mkErrorStr("strconv.ParseFloat: parsing: invalid syntax") }
 	if nFF == 1 && len(s.e) == 1 {
 		ff := s.e[0].(ffElem)
-		if ff.prec == -1 && (ff.f == 'e' || ff.f == 'f' || ff.f == 'g' || ff.f == 'E' || ff.f == 'G') {
+		if ff.prec == -1 && ff.bits == 64 && (ff.f == 'e' || ff.f == 'f' || ff.f == 'g' || ff.f == 'E' || ff.f == 'G') {
 			return tuple{mkval(types.Float64, ff.x), iface{}}
 		}
 		// lossy text: value is unconstrained
